@@ -539,6 +539,26 @@ func main() {
 		fmt.Fprintln(os.Stderr, err)
 		os.Exit(2)
 	}
+	// per-property additions: spec.d/*.json next to the spec file
+	more, _ := filepath.Glob(filepath.Join(filepath.Dir(*specFile), "spec.d", "*.json"))
+	sort.Strings(more)
+	for _, m := range more {
+		d, err := os.ReadFile(m)
+		if err != nil {
+			fmt.Fprintln(os.Stderr, err)
+			os.Exit(2)
+		}
+		var s2 Spec
+		if err := json.Unmarshal(d, &s2); err != nil {
+			fmt.Fprintln(os.Stderr, m, err)
+			os.Exit(2)
+		}
+		spec.Consts = append(spec.Consts, s2.Consts...)
+		spec.StringLists = append(spec.StringLists, s2.StringLists...)
+		spec.VarLists = append(spec.VarLists, s2.VarLists...)
+		spec.Structs = append(spec.Structs, s2.Structs...)
+		spec.Locks = append(spec.Locks, s2.Locks...)
+	}
 
 	var b strings.Builder
 	b.WriteString("(* GENERATED by /verif/gen from the current sources of the repository. Do not edit. *)\n")
